@@ -7,6 +7,8 @@ mod link;
 mod observe;
 mod optval;
 mod registry;
+#[cfg(feature = "std")]
+mod server;
 mod util;
 mod views;
 mod wire;
@@ -53,6 +55,10 @@ fn main() {
         ("rec", "expiry") => block::rec_expiry(&args),
         #[cfg(feature = "std")]
         ("rec", "script") => block::rec_script(&args),
+        #[cfg(feature = "std")]
+        ("rec", "server") => server::rec_server(&args),
+        #[cfg(feature = "std")]
+        ("rec", "server-script") => server::rec_server_script(&args),
         ("rec", "wire-bytes") => wire::rec_wire_bytes(&args),
         ("rec", "wire-build") => wire::rec_wire_build(&args),
         ("rec", "wire-limit") => wire::rec_wire_limit(&args),
